@@ -257,11 +257,9 @@ def run(ck):
     per_limit = {}
     for dsmax in LIMITS_DS:
         toks = tokens(dsmax)
-        if full:
-            red = [t for t in toks if t not in (b'%{snoopy_literal:}', b'%{nosuch:arg}', b'%{:}', b'%{noop}', b'{', b':')]
-            seqs = [s for n in (1, 2, 3) for s in itertools.product(toks, repeat=n)] + list(itertools.product(red, repeat=4))
-        else:
-            seqs = [s for n in (1, 2, 3) for s in itertools.product(toks, repeat=n)]
+        seqs = [s for n in (1, 2, 3) for s in itertools.product(toks, repeat=n)]
+        red = [t for t in toks if t not in (b'%{snoopy_literal:}', b'%{nosuch:arg}', b'%{:}', b'%{noop}', b'{', b':', b'%{snoopy_literal:a:b}')]
+        seqs4 = list(itertools.product(red, repeat=4)) if full else []
         fm = []
         seen = set()
         for s in seqs:
@@ -273,12 +271,20 @@ def run(ck):
                 continue
             seen.add(f)
             fm.append(f)
+        fm4 = []
+        for sq in seqs4:
+            f = b''.join(sq)
+            if len(f) <= VALUE_MAX and f not in seen:
+                seen.add(f)
+                fm4.append(f)
         for logmax in LIMITS_LOG:
             # quick: the full token^3 space for the 2 extreme limit pairs + diagonal; others get token^2
             if not full and (dsmax, logmax) not in ((255, 255), (256, 256), (2047, 16383), (300, 300), (255, 16383), (2047, 255)):
                 use = [f for f in fm if len(f) <= 640 and f.count(b'%{') <= 2 and f.count(b'L' * 300) <= 1]
             else:
                 use = fm
+            if full and (dsmax, logmax) in ((255, 255), (256, 256), (300, 300), (2047, 16383)):
+                use = use + fm4          # 4-token sequences on the diagonal limit pairs only (3.4 M cases otherwise)
             per_limit[(dsmax, logmax)] = len(use)
             for i in range(0, len(use), chunk):
                 jobs.append((v['h_exec'], idx, dsmax, logmax, use[i:i + chunk], os.path.join(ck.workdir, 'w%d' % idx)))
